@@ -108,6 +108,24 @@ def run(ctx) -> None:
                               hist=f"spike.{method}")
                 ctx.count("spike.calls")
                 ctx.case(f"f32-large|{method}|n{n}")
+        # whole-number observations in every integer dtype (raw counts): neighbour sums and down-steps are computed as numbers
+        for _ in range(ctx.pick(60, 300)):
+            n = rng.choice([3, 4, 6, 9])
+            hi = rng.choice([120, 250, 60000, 4_000_000_000])
+            x = [rng.randrange(hi // 2, hi) for _ in range(n)]
+            x[rng.randrange(n)] = rng.randrange(0, hi // 4)
+            for method in ("average", "differential"):
+                ds_ = sorted({models.spike_d(float(x[k - 1]), float(x[k]), float(x[k + 1]), method) for k in range(1, n - 1)})
+                st, ft = rng.choice([0.5, ds_[0], ds_[len(ds_) // 2]]), rng.choice([ds_[-1], ds_[-1] + 1, ds_[len(ds_) // 2]])
+                fx = [float(v) for v in x]
+                for cname, arr_ in gen.int_carriers(x):
+                    kw = {"inp": arr_, "suspect_threshold": st, "fail_threshold": ft, "method": method}
+                    client.expect(ctx, "C09", "qartod.spike_test", kw, lambda: models.spike(fx, st, ft, method),
+                                  logical={"x": x, "suspect_threshold": st, "fail_threshold": ft, "method": method, "carrier": cname},
+                                  hist=f"spike.{method}")
+                    ctx.count("spike.calls")
+                    ctx.count("spike.integer_dtype_calls")
+                    ctx.case(f"int-dtype|{cname}|{method}|n{n}")
         for bad in ("Average", "avg", "", "diff", None, 3):
             o = client.invoke("qartod.spike_test", {"inp": np.array([1.0, 2.0, 1.0]), "suspect_threshold": 1,
                                                     "fail_threshold": 2, "method": bad})
